@@ -2,8 +2,8 @@
    error, no wrap-around, or a loud refusal.  Each theorem is closed by `exact <lemma>` and
    followed by Print Assumptions. *)
 From Coq Require Import ZArith QArith Qabs Reals List Bool Lia Floats.SpecFloat.
-From Flocq Require Import Core.Zaux Core.Generic_fmt Core.Round_NE Core.Ulp Core.FLT IEEE754.BinarySingleNaN.
-From NV Require Import C02.Model C02.Tables C02.Lemmas C02.ModelQ C02.LemmasQ C02.ModelF C02.LemmasF C02.LemmasFW C02.LemmasFN C02.LemmasFR.
+From Flocq Require Import Core.Zaux Core.Raux Core.Defs Core.Generic_fmt Core.Round_NE Core.Ulp Core.FLT IEEE754.BinarySingleNaN.
+From NV Require Import C02.Model C02.Tables C02.Lemmas C02.ModelQ C02.LemmasQ C02.ModelF C02.LemmasF C02.LemmasFW C02.LemmasFN C02.LemmasFR C02.LemmasFG.
 Import ListNotations.
 Open Scope Z_scope.
 
@@ -238,7 +238,7 @@ Example C02_no_wrap_float_nonvacuous :
   /\ cast_to_int K32 ity_int16 (elem_f K32 sl it q_mn q_mx (Some nfill) (S754_infinity false)) = (32767, false)
   /\ cast_to_int K32 ity_int16 (elem_f K32 sl it q_mn q_mx (Some nfill) (S754_finite false 16000000 (-4))) = (32767, false)
   /\ cast_to_int K32 ity_int16 (elem_f K32 sl it q_mn q_mx (Some nfill) (S754_finite false 10485760 (-20))) = (14, false).
-Proof. vm_compute. repeat split; reflexivity. Qed.
+Proof. exact no_wrap_float_nonvacuous. Qed.
 
 (* C02_reload_is_rounding: the binary64 reload of the exact float layer (ModelF.read_elem, the
    NIfTI route of apply_read_scaling) for a stored integer |raw| < 2^53 and ANY finite float32
@@ -277,20 +277,146 @@ Theorem C02_read_error_real : forall p i : R,
 Proof. exact read_error_real. Qed.
 Print Assumptions C02_read_error_real.
 
+(* ---------------------------------------------------------------- C02_float_gap, step by step
+   (binary64 working format = float64 data, or 32/64-bit integer data; val x = B2R (sf2b K64 x)) *)
+
+(* (a) write and read are compositions of rounding operators: float32 slope s <> 0 and intercept i
+   as stored, no overflow (|x - i| <= 2^1023, |RN(x - i)/s| <= 2^52), rounded scaled value inside
+   the clip range [lo, hi]: the integer handed to the cast is k = rint(RN(RN(x - i)/s)) and the
+   binary64 reload of k is RN(RN(k*s) + i) *)
+Theorem C02_write_read_rounding : forall slope32 inter32 lo hi nf x t,
+  fin K64 x -> is_finite_strict (sf2b K32 slope32) = true -> is_finite (sf2b K32 inter32) = true ->
+  let s := B2R (sf2b K32 slope32) in
+  let i := B2R (sf2b K32 inter32) in
+  let sl := fconv K64 slope32 in
+  let it := fconv K64 inter32 in
+  (Rabs (B2R (sf2b K64 x) - i) <= bpow radix2 1023)%R ->
+  (Rabs (RN64 (B2R (sf2b K64 x) - i) / s) <= bpow radix2 52)%R ->
+  let y := frint K64 (scale_w K64 sl it x) in
+  fle K64 lo y = true -> fle K64 y hi = true ->
+  let k := ZnearestE (RN64 (RN64 (B2R (sf2b K64 x) - i) / s)) in
+  let r := snd (read_elem t K64 sl it k) in
+  f_trunc K64 (elem_f K64 sl it lo hi nf x) = Some k
+  /\ fin K64 r /\ B2R (sf2b K64 r) = RN64 (RN64 (IZR k * s) + i).
+Proof. exact write_read_rounding. Qed.
+Print Assumptions C02_write_read_rounding.
+
+(* (b) slope-only branch end to end (intercept 0), element inside the clip range, |x/s| <= 2^52:
+        |reload - x| <= |s|/2 + |x| * 2^-52 + |s| * 2^-52
+   with s the float32 slope actually stored.  The harness evaluates exactly this inequality on
+   every element in this regime (float64 data, stored intercept 0, binary64 reload, unclipped). *)
+Theorem C02_float_gap_slope_only : forall slope32 lo hi nf x t,
+  fin K64 x -> is_finite_strict (sf2b K32 slope32) = true ->
+  let s := B2R (sf2b K32 slope32) in
+  let sl := fconv K64 slope32 in
+  (Rabs (B2R (sf2b K64 x) / s) <= bpow radix2 52)%R ->
+  let y := frint K64 (scale_w K64 sl fzero x) in
+  fle K64 lo y = true -> fle K64 y hi = true ->
+  let k := ZnearestE (RN64 (B2R (sf2b K64 x) / s)) in
+  let r := snd (read_elem t K64 sl fzero k) in
+  f_trunc K64 (elem_f K64 sl fzero lo hi nf x) = Some k
+  /\ fin K64 r
+  /\ (Rabs (B2R (sf2b K64 r) - B2R (sf2b K64 x))
+      <= Rabs s * / 2 + Rabs (B2R (sf2b K64 x)) * bpow radix2 (-52) + Rabs s * bpow radix2 (-52))%R.
+Proof. exact slope_only_gap. Qed.
+Print Assumptions C02_float_gap_slope_only.
+
+(* (c) intercept branch, ulp form (partial: the ulp terms are not yet turned into an explicit
+   allowance): u = RN(x - i), k = rint(RN(u/s)), p = RN(k*s), reload r = RN(p + i) and
+   |r - x| <= |s|/2 + ulp(x - i)/2 + |s|*ulp(u/s)/2 + ulp(k*s)/2 + ulp(p + i)/2 *)
+Theorem C02_float_gap_intercept_partial : forall slope32 inter32 lo hi nf x t,
+  fin K64 x -> is_finite_strict (sf2b K32 slope32) = true -> is_finite (sf2b K32 inter32) = true ->
+  let s := B2R (sf2b K32 slope32) in
+  let i := B2R (sf2b K32 inter32) in
+  let sl := fconv K64 slope32 in
+  let it := fconv K64 inter32 in
+  (Rabs (B2R (sf2b K64 x) - i) <= bpow radix2 1023)%R ->
+  (Rabs (RN64 (B2R (sf2b K64 x) - i) / s) <= bpow radix2 52)%R ->
+  let y := frint K64 (scale_w K64 sl it x) in
+  fle K64 lo y = true -> fle K64 y hi = true ->
+  let u := RN64 (B2R (sf2b K64 x) - i) in
+  let k := ZnearestE (RN64 (u / s)) in
+  let p := RN64 (IZR k * s) in
+  let r := snd (read_elem t K64 sl it k) in
+  f_trunc K64 (elem_f K64 sl it lo hi nf x) = Some k /\ fin K64 r
+  /\ (Rabs (B2R (sf2b K64 r) - B2R (sf2b K64 x)) <= Rabs s * / 2
+        + / 2 * ulp radix2 (FLT_exp (-1074) 53) (B2R (sf2b K64 x) - i)
+        + Rabs s * (/ 2 * ulp radix2 (FLT_exp (-1074) 53) (u / s))
+        + / 2 * ulp radix2 (FLT_exp (-1074) 53) (IZR k * s)
+        + / 2 * ulp radix2 (FLT_exp (-1074) 53) (p + i))%R.
+Proof. exact intercept_gap. Qed.
+Print Assumptions C02_float_gap_intercept_partial.
+
+(* (d) clipped elements: a rounded scaled value strictly above (below) the clip bound is stored as
+   the bound's integer zhi (zlo) and reloads as the clip limit in data units, zhi*s + i, up to
+   the read rounding: the error of a clipped element is its distance to the clip limit plus
+   half an ulp of the product and of the sum *)
+Theorem C02_clipped_above : forall slope32 inter32 lo hi yv zhi t,
+  fle K64 lo hi = true -> flt K64 hi yv = true -> is_nan_sf yv = false ->
+  f_trunc K64 hi = Some zhi -> Z.abs zhi < 2 ^ 53 ->
+  is_finite (sf2b K32 slope32) = true -> is_finite (sf2b K32 inter32) = true ->
+  let s := B2R (sf2b K32 slope32) in
+  let i := B2R (sf2b K32 inter32) in
+  fclip K64 yv lo hi = hi
+  /\ let r := snd (read_elem t K64 (fconv K64 slope32) (fconv K64 inter32) zhi) in
+     B2R (sf2b K64 r) = RN64 (RN64 (IZR zhi * s) + i)
+     /\ (Rabs (B2R (sf2b K64 r) - (IZR zhi * s + i))
+         <= / 2 * ulp radix2 (FLT_exp (-1074) 53) (IZR zhi * s)
+            + / 2 * ulp radix2 (FLT_exp (-1074) 53) (RN64 (IZR zhi * s) + i))%R.
+Proof. exact clipped_above. Qed.
+Print Assumptions C02_clipped_above.
+
+Theorem C02_clipped_below : forall slope32 inter32 lo hi yv zlo t,
+  fle K64 lo hi = true -> flt K64 yv lo = true -> is_nan_sf yv = false ->
+  f_trunc K64 lo = Some zlo -> Z.abs zlo < 2 ^ 53 ->
+  is_finite (sf2b K32 slope32) = true -> is_finite (sf2b K32 inter32) = true ->
+  let s := B2R (sf2b K32 slope32) in
+  let i := B2R (sf2b K32 inter32) in
+  fclip K64 yv lo hi = lo
+  /\ let r := snd (read_elem t K64 (fconv K64 slope32) (fconv K64 inter32) zlo) in
+     B2R (sf2b K64 r) = RN64 (RN64 (IZR zlo * s) + i)
+     /\ (Rabs (B2R (sf2b K64 r) - (IZR zlo * s + i))
+         <= / 2 * ulp radix2 (FLT_exp (-1074) 53) (IZR zlo * s)
+            + / 2 * ulp radix2 (FLT_exp (-1074) 53) (RN64 (IZR zlo * s) + i))%R.
+Proof. exact clipped_below. Qed.
+Print Assumptions C02_clipped_below.
+
+(* the float32 setters of slope and intercept: the longdouble value S computed by _range_scale is
+   stored as RN32(S) (when that is finite), with relative error <= 2^-24 in float32's normal
+   range and only an absolute error <= 2^-150 below 2^-126 (subnormal: finding S-C02c) *)
+Theorem C02_setter_rounding : forall S, is_finite (sf2b K80 S) = true ->
+  let v := B2R (sf2b K80 S) in
+  (Rabs (RN32 v) < bpow radix2 128)%R ->
+  is_finite (sf2b K32 (fconv K32 S)) = true
+  /\ B2R (sf2b K32 (fconv K32 S)) = RN32 v
+  /\ ((bpow radix2 (-126) <= Rabs v)%R -> (Rabs (RN32 v - v) <= bpow radix2 (-24) * Rabs v)%R)
+  /\ ((Rabs v < bpow radix2 (-126))%R -> (Rabs (RN32 v - v) <= bpow radix2 (-150))%R).
+Proof. exact setter_rounding. Qed.
+Print Assumptions C02_setter_rounding.
+
 (* C02_float_gap (GENERAL STATEMENT, NOT PROVED; listed in evidence `unproved_statements`): for the
    exact float pipeline (ModelF.writer_write then apply_read_scaling), every finite element
    reloads within |slope|/2 + (|inter| + max|x|) * 2^-22 + |slope| * 2^-20 of its value unless the
    stored slope is subnormal (finding S-C02c shows the statement is false there).
-   Proved pieces: C02_no_wrap_float(_platform/_inputs) (no wrap in the float layer, premises on
-   inputs only), C02_reload_is_rounding (the reload is exactly RN(RN(raw*slope)+inter)),
-   C02_read_error_real and C02_float_gap_real_partial (rounding-operator bounds for the read side
-   and for write+read in the slope-only branch inside the clip range).
-   Missing: (a) the identification of the WRITE side with the rounding operator
-   (Bminus_correct/Bdiv_correct with their overflow guards, for float32 and longdouble working
-   formats as well as binary64, and the exact int/float16/float32 -> working format conversions
-   of the elements); (b) the error of the float32 rounding of slope and intercept against the ideal
-   values chosen by _range_scale (a relative error 2^-24 each, but unbounded relative error for a
-   subnormal slope); (c) the intercept branch (cancellation in x - inter) and clipped elements;
-   (d) conversion of the ulp terms into the stated allowance.  The gap is measured instead: the
-   float layer is compared bit for bit with the implementation and the bound is evaluated on
-   every case by the harness. *)
+   Proved pieces: C02_no_wrap_float(_platform/_inputs); C02_reload_is_rounding;
+   C02_write_read_rounding (a), C02_float_gap_slope_only (b, explicit bound, evaluated verbatim by
+   the harness), C02_float_gap_intercept_partial (c, ulp form), C02_clipped_above/_below (d),
+   C02_setter_rounding; C02_read_error_real, C02_float_gap_real_partial (rounding-operator level).
+   Still missing, exactly:
+   (1) the float32 and longdouble WORKING formats (float32 / float16 / 8- and 16-bit integer data;
+       overflow fallback): (a)-(d) are proved for the binary64 working format only; the float32
+       reload of SPM99 is not analysed;
+   (2) (c) with the ulp terms turned into an explicit allowance (|x| + |i| + |s|) * c * 2^-52
+       (cancellation in x - i makes the bound relative to |x| + |i|, not to |x - i|);
+   (3) the lift from one element to writer_write/apply_read_scaling on whole arrays: that
+       array_to_file picks binary64, that q_mn/q_mx are the clip bounds of the theorem and that
+       the no-overflow guards hold for every element between the finite minimum and maximum;
+       exactness/rounding of 64-bit integer elements (|x| >= 2^53) on the way in;
+   (4) which elements are inside the clip range: from C02_setter_rounding (relative error 2^-24 of
+       the stored slope/intercept against the ideal values of _range_scale) the overshoot of
+       the extreme elements beyond the integer range is at most about 2^-24 * 2^nbits steps for a
+       normal slope, unbounded in steps for a subnormal one -- not derived formally;
+   (5) the comparison of the proved allowances with the harness allowance
+       (|inter| + max|x|) * 2^-22 + |slope| * 2^-20 outside regime (b).
+   The gap is measured instead: the float layer is compared bit for bit with the implementation
+   and the bound is evaluated on every case by the harness. *)
